@@ -333,7 +333,8 @@ def run_c07(ctx):
     sets = keysets(ctx, ctx.scale(50, 300), ctx.scale(10, 100), big=True, huge=(ctx.tier == 'thorough'))
     def ops(K):
         bat = gen.battery(K, ctx.rng, ctx.scale(40, 120)) + gen.id_ops(K) + ['E', 'EC', 'STATS']
-        return bat + ['USE load'] + bat[:60] + ['USE mmapend'] + bat[:60] + ['USE mmap 3'] + bat[:30] + ['MV'] + bat[:20]
+        unbound = ['IDP 0', 'N 0', 'N 0', 'IDR 1', 'N 1', 'NI 1', 'IP 2 ' + hexs(K[0]), 'N 2', 'N 2', 'N 2', 'IE 3', 'N 3']
+        return bat + unbound + ['USE load'] + bat[:60] + unbound + ['USE mmapend'] + bat[:60] + ['USE mmap 3'] + bat[:30] + ['MV'] + bat[:20]
     cases = trie_cases(ctx, sets, ops)
     correspond(ctx, cases, ['san'], lambda *a: j_c07(*a) , 'main')
     # the alignment configuration exhibits the known finding F13 on one mapped case
@@ -428,6 +429,8 @@ def j_conc(hdr, keys, ops, lines, case):
     for l in lines:
         if l.startswith(('crash', 'sanitizer', 'abort', 'timeout')):
             V.append(('C12', 'concurrent readers: %s' % l))
+        if ' savebad ' in l and not l.endswith('savebad exc'):
+            V.append(('C12', 'concurrent failing save: %s' % l))
     # every thread's transcript must be what a sequential run gives (judged against the spec)
     nth = int(hdr[6])
     for k in range(nth):
@@ -452,13 +455,14 @@ def run_c12(ctx):
             v = 15 if n % 2 == 0 else 16
         src = ['built', 'load', 'mmap'][n % 3]
         nth = ctx.rng.choice([2, 3, 4, 8, 16] if ctx.tier == 'thorough' else [2, 4, 8])
-        bat = gen.battery(K, ctx.rng, 25, kinds=('L', 'P', 'R', 'PC', 'RC')) + gen.id_ops(K)[:10] + ['E', 'EC', 'STATS', 'MEM', 'SAVE']
-        if len(K) > 5000:
-            bat = [o for o in bat if o not in ('E', 'EC')]
+        bat = gen.battery(K, ctx.rng, 25, kinds=('L', 'P', 'R', 'PC', 'RC')) + gen.id_ops(K)[:10] + ['E', 'EC', 'STATS', 'MEM', 'SAVE', 'SAVEBAD full', 'SAVEBAD nodir', 'SAVEBAD nodir', 'SAVEBAD full']
+        if len(K) > 5000 or sum(map(len, K)) > 100000:
+            bat = [o for o in bat if o not in ('E', 'EC') and not o.startswith(('R -', 'RC -'))]
         threads = []
         for k in range(nth):
             t = list(bat); ctx.rng.shuffle(t); threads.append(t[:ctx.rng.randint(10, 60)])
         cases.append(conc_case('c%d-%s' % (n, d), v, b, src, K, threads))
+    os.environ.setdefault('VERIF_CASE_TIMEOUT', '120')
     correspond(ctx, cases, ['tsan'], j_conc, 'main')
 
 def hist_ops(ctx, K, n):
@@ -616,6 +620,8 @@ def j_c14(hdr, keys, ops, lines, case):
             exp = 'ok' if o[1] == hdr[3] else 'exc'
             if ln.split()[1] != exp:
                 V.append(('C14', '%s of a variant-%s file as variant %s -> %s, expected %s' % ('load' if o[0] == 'XL' else 'mmap', hdr[3], o[1], ln.split()[1], exp)))
+        elif o[0] == 'XLRO' and ln not in ('xlro ok', 'xlro skip'):
+            V.append(('C14', 'load of the variant\'s own file, readable but not writable by the process -> %s' % ln))
         elif o[0] == 'TID' and ln != 'tid ' + hdr[3]:
             V.append(('C14', 'get_type_id -> %s for variant %s' % (ln, hdr[3])))
         elif o[0] == 'BADPATH' and ln != 'badpath exc':
@@ -630,6 +636,7 @@ def run_c14(ctx):
         for v in gen.VARIANTS:
             b = n % 2; n += 1
             ops = ['TID'] + ['XL %d' % w for w in gen.VARIANTS] + ['XM %d' % w for w in gen.VARIANTS]
+            ops += ['XLRO']
             ops += ['BADPATH load missing', 'BADPATH load noparent', 'BADPATH tid missing', 'BADPATH tid noparent',
                     'BADPATH save noparent', 'BADPATH save dir']
             cases.append(gen.trie_case('v%d-%s' % (n, d), v, b, 's', K, ops))
@@ -655,6 +662,14 @@ def run_c15(ctx):
     sets = [s for s in keysets(ctx, ctx.scale(14, 60), ctx.scale(1, 6)) if sum(map(len, s[1])) < 3000]
     cases = trie_cases(ctx, sets, lambda K: ['TRUNCALL', 'USE load', 'L ' + hexs(K[0])], containers='s')
     correspond(ctx, cases, ['rel'], j_c15, 'main')
+    if ctx.scale_on:
+        os.environ.setdefault('VERIF_CASE_TIMEOUT', '300')
+        n = 2 ** 25 + 5          # a body of more than two 16 MiB pieces
+        K = [b'k' * n]
+        size_guess = n + 1600
+        cuts = [0, 3, 4, 100, 2000, 2 ** 20, size_guess // 8, size_guess // 3, 2 ** 24, 2 ** 24 + 2 ** 20, size_guess // 2 + 7, 2 ** 25, n, n + 1500]
+        sc = [gen.trie_case('z-scale-array-%d' % v, v, 0, 's', K, ['TRUNC %d' % c for c in cuts] + ['USE load', 'L ' + hexs(b'k')]) for v in (8, 15)]
+        correspond(ctx, sc, ['rel'], j_c15, 'scale', model=False)
     small = [c for c in cases if sum(map(len, c['keys'])) < 200][:6]
     for c in small: c['id'] += '-san'
     correspond(ctx, small, ['san'], j_c15, 'san', model=False)
@@ -666,6 +681,10 @@ def j_c16(hdr, keys, ops, lines, case):
         if f[0] == 'limitall' and f[2] != '-':
             cuts = f[2].split(',')
             V.append(('C16', 'save of a %s-byte file returned normally although the device refused writes after %s%s bytes' % (f[1], ','.join(cuts[:6]), '...' if len(cuts) > 6 else '')))
+        if f[0] == 'limitt' and f[1] != 'exc':
+            d = dict(x.split(':') for x in f[1:] if ':' in x)
+            if d.get('load') != 'ok' or d.get('size') != d.get('ret'):
+                V.append(('C16', 'a write was refused once (transient EFBIG at the limit) yet save returned %s; the file has %s bytes and load -> %s' % (d.get('ret'), d.get('size'), d.get('load'))))
         if f[0] == 'limit' and f[1].startswith('ret:'):
             # returned normally: must be complete
             d = dict(x.split(':') for x in f[1:])
@@ -682,8 +701,14 @@ def j_c16(hdr, keys, ops, lines, case):
 def run_c16(ctx):
     sets = [s for s in keysets(ctx, ctx.scale(10, 40), ctx.scale(1, 4)) if sum(map(len, s[1])) < 2000]
     def ops(K):
-        return ['LIMITALL', 'DEVFULL', 'BADPATH save noparent', 'BADPATH save dir', 'LIMIT 1000000']
+        return ['LIMITALL', 'DEVFULL', 'BADPATH save noparent', 'BADPATH save dir', 'LIMIT 1000000'] + \
+               ['LIMITT %d' % n for n in (0, 1, 4, 12, 100, 1000, 1100, 1500, 2047, 4096)]
+    def big_ops(K):      # files > 8 KiB: refusals at and around stdio buffer boundaries, lasting and transient
+        offs = [0, 1023, 1024, 4095, 4096, 8191, 8192, 8193, 12000, 16384, 20000]
+        return ['LIMIT %d' % n for n in offs] + ['LIMITT %d' % n for n in offs] + ['DEVFULL']
     cases = trie_cases(ctx, sets, ops, containers='s')
+    bigsets = [s for s in gen.shaped_sets(ctx.rng, 0, big=True) if s[0] in ('big-4k', 'big-complete4')][:2]
+    cases += trie_cases(ctx, bigsets, big_ops, containers='s', tag='b')
     correspond(ctx, cases, ['rel'], j_c16, 'main')
 
 def run_c17(ctx):
@@ -967,6 +992,10 @@ def key_files(ctx):
     add('tabs', [b'a\tb', b'a', b'\t'])
     add('cr', [b'a\r', b'a', b'b\r'])
     add('prefix-chain', [b'a', b'ab', b'abc', b'abcd', b'abcde'])
+    big = [b'k%04d' % i for i in range(1500)] + [b'', b'x', b'ka', b'k']
+    rng.shuffle(big)
+    add('many-completions', big + big[:7])
+    add('sorted-with-repeats', [b'a', b'a', b'b', b'b', b'b', b'c'])
     for n in range(ctx.scale(14, 80)):
         a = rng.choice([b'ab', b'abc', bytes(range(97, 123)), bytes(b for b in range(256) if b != 10)])
         lines = [gen.rand_word(rng, a, 0, rng.choice([2, 5, 9])) for _ in range(rng.choice([1, 3, 10, 40, 300]))]
@@ -998,7 +1027,8 @@ def run_c19(ctx):
             open(kf, 'wb').write(b'\n'.join(lines) + (b'\n' if nl else b''))
             if os.path.exists(df): os.unlink(df)
             try:
-                rc, so, se = run_tool(os.path.join(d, 'xcdat_build'), [kf, df, '-t', str(t), '-b', str(b)])
+                bargs = [kf, df] + ([] if (t == 8 and ctx.rng.random() < 0.5) else ['-t', str(t)]) + ([] if (b == 0 and ctx.rng.random() < 0.5) else ['-b', str(b)])
+                rc, so, se = run_tool(os.path.join(d, 'xcdat_build'), bargs)
                 ctx.evaluations += 1
                 if rc != 0 or not os.path.exists(df):
                     V('xcdat_build -t %d -b %d failed (exit %s): %s' % (t, b, rc, se[-200:]), desc, lines); continue
@@ -1046,13 +1076,15 @@ def run_c19(ctx):
                     V('xcdat_prefix_search (-t %d -b %d) output differs from the specification' % (t, b), desc, lines, [so[:300].hex(), exp[:300].hex()])
                 else:
                     ctx.nontrivial.add((desc, t, b, 'prefix'))
-                rc, so, se = run_tool(os.path.join(d, 'xcdat_predictive_search'), [df], qin)
+                maxn = ctx.rng.choice([None, 0, 1, 3, 10, 1000, 5000]) if len(K) < 1000 else 5000
+                rc, so, se = run_tool(os.path.join(d, 'xcdat_predictive_search'), [df] + (['-n', str(maxn)] if maxn is not None else []), qin)
+                maxn = 10 if maxn is None else maxn
                 outs['pred'] = so
                 ctx.evaluations += len(Q)
                 exp = b''
                 for q in Q:
                     r = spec.spec_completions(K, q)
-                    exp += b'%d found\n' % len(r) + b''.join(b'%d\t%s\n' % (ids[k], k) for k in r[:10])
+                    exp += b'%d found\n' % len(r) + b''.join(b'%d\t%s\n' % (ids[k], k) for k in r[:maxn])
                 if rc != 0 or so != exp:
                     V('xcdat_predictive_search (-t %d -b %d) output differs from the specification' % (t, b), desc, lines, [so[:300].hex(), exp[:300].hex()])
                 else:
@@ -1062,8 +1094,8 @@ def run_c19(ctx):
                     keyfile = b'\n'.join(lines) + (b'\n' if nl else b'')
                     dic = open(df, 'rb').read()
                     ids_in = ('\n'.join(map(str, idq)) + '\n').encode()
-                    tcase = 'CASE tool%d tools %d %d\nDIC %s\nKEYFILE %s\nENUM\nLOOKUP %s\nDECODE %s\nPREFIX %s\nPRED 10 %s\nEND\n' % (
-                        n, t, b, hexs(dic), hexs(keyfile), hexs(qin), hexs(ids_in), hexs(qin), hexs(qin))
+                    tcase = 'CASE tool%d tools %d %d\nDIC %s\nKEYFILE %s\nENUM\nLOOKUP %s\nDECODE %s\nPREFIX %s\nPRED %d %s\nEND\n' % (
+                        n, t, b, hexs(dic), hexs(keyfile), hexs(qin), hexs(ids_in), hexs(qin), maxn, hexs(qin))
                     tool_cases.append((n, desc, lines, tcase, outs))
                 if len(ctx.samples) < 3:
                     ctx.samples.append({'key_file_lines': [hexs(l) for l in lines[:10]], 't': t, 'b': b, 'queries': [hexs(q) for q in Q[:6]]})
